@@ -343,6 +343,13 @@ func (s *rsession) track(op *rop, out *outv) {
 			killArg()
 		case "mclear":
 			s.kill(recv.root, sub(recv.path, "k"+op.key.String()))
+		case "reset", "merge":
+			for i := range s.hs {
+				h := &s.hs[i]
+				if i != op.r && h.kind != hNone && h.live && h.valid && h.root == recv.root && hasPrefix(h.path, recv.path) {
+					h.live = false
+				}
+			}
 		}
 	}
 	if nh.kind != hNone && !nh.valid {
@@ -361,10 +368,28 @@ func (s *rsession) do(op *rop) bool {
 	s.ops = append(s.ops, op.tok())
 	var outs [3]*outv
 	var norm [3]string
+	if s.noModel && op.code == "merge" && s.mergeUnsafe(op) {
+		s.ops = s.ops[:idx]
+		s.o.count("alias_merge_of_related_messages_skipped")
+		return true
+	}
 	for i, x := range s.impls {
 		h, o := s.apply(x, op)
 		x.res = append(x.res, h)
 		outs[i] = o
+	}
+	if s.noModel && op.a >= 0 && s.anyCycle() {
+		// a message was stored below itself: not a message any more (no implementation can print, compare or marshal it)
+		s.o.count("alias_cycle_ends_history")
+		s.ops = s.ops[:idx]
+		for _, x := range s.impls {
+			x.res = x.res[:len(x.res)-1]
+		}
+		s.stopped = true
+		return false
+	}
+	for i, x := range s.impls {
+		h, o := x.res[len(x.res)-1], outs[i]
 		if op.code == "new" && len(x.res) == 1 {
 			switch x {
 			case s.F:
@@ -435,14 +460,29 @@ func (s *rsession) do(op *rop) bool {
 	}
 	s.track(op, outs[1])
 	ok := norm[0] == norm[1]
-	s.o.withKey(key).prop(pid, ok, fmt.Sprintf("%s; step %d: generated code gives %s ; both references give %s (panic value: %v)", s.replay(idx), idx, norm[0], norm[1], s.F.pan))
+	if ok {
+		s.o.withKey(key).prop(pid, true, "")
+	} else {
+		s.o.withKey(key).prop(pid, false, fmt.Sprintf("%s; step %d: generated code gives %s ; both references give %s (panic value: %v)", s.replay(idx), idx, norm[0], norm[1], s.F.pan))
+	}
 	if ok && s.mi.pulsar {
 		// the reflection view of F's own struct agrees with the struct state
 		view := s.si.fromPR(s.mi, s.F.res[0].(protoreflect.Message)).String()
 		st := s.state(s.F)
-		s.o.withKey(key).prop(pid, view == st, fmt.Sprintf("%s; after step %d the struct fields hold %s but Range/Has/Get show %s", s.replay(idx), idx, st, view))
+		if view == st {
+			s.o.withKey(key).prop(pid, true, "")
+		} else {
+			s.o.withKey(key).prop(pid, false, fmt.Sprintf("%s; after step %d the struct fields hold %s but Range/Has/Get show %s", s.replay(idx), idx, st, view))
+		}
 	}
 	if !ok {
+		s.stopped = true
+		return false
+	}
+	// every handle obtained so far reads the same as through the references (reflecteng_alias.go)
+	// (after every step that writes or hands out a handle, and once more when the history is complete: finish)
+	s.swept = false
+	if s.propID == "" && (isWriteOp(op.code) || s.F.res[len(s.F.res)-1] != nil) && !s.sweepViews(idx, pid) {
 		s.stopped = true
 		return false
 	}
@@ -506,7 +546,15 @@ func (s *rsession) finish() {
 	if len(s.ops) == 0 {
 		return
 	}
+	if s.propID == "" && !s.softRef && !s.stopped && !s.swept && len(s.hs) > 0 {
+		s.sweepViews(len(s.ops)-1, "C08")
+	}
 	s.getters()
+	if s.noModel {
+		s.o.count("hist_" + s.class)
+		s.o.count(fmt.Sprintf("histlen_%02d", (len(s.ops)+4)/5*5))
+		return
+	}
 	if len(s.ref) > 0 {
 		q := -1
 		if s.refDone {
